@@ -100,8 +100,8 @@ def z_factor_DAK(
             0.721,
         ]
     )
-    temp_reduced = (temperature + 459.67) / (temperature_pseudocritical + 459.67)
-    pressure_reduced = pressure / pressure_pseudocritical
+    temp_reduced = (float(temperature) + 459.67) / (float(temperature_pseudocritical) + 459.67)
+    pressure_reduced = float(pressure) / float(pressure_pseudocritical)
     C = np.zeros(5)  # Taylor series expansion
     C[0] = (
         A[0] * A[1] / temp_reduced
